@@ -656,7 +656,16 @@ def case_area(ctx, rng, T, cls, latlon, shape, nontriv, glob=False):
     via = "gis"
     if unit == "m2" and rng.random() < 0.5:
         via = "flw"
-        flw = flw_of(shape, T, latlon)
+        ncell = nrow * ncol
+        dsa = None
+        if ncell >= 3 and rng.random() < 0.6:
+            # rasters with cells outside the network (nodata): cell area is a property of the grid, not of the network
+            dsa = [(ncell if rng.random() < 0.25 else i) for i in range(ncell)]
+            if sum(1 for d in dsa if d != ncell) < 2:
+                dsa = None
+            else:
+                ctx.count("area:raster-with-nodata-cells")
+        flw = flw_of(shape, T, latlon, ds=dsa)
         if rng.random() < 0.6:
             # the cell-area grid is a query of its own: reading it after an accumulation in another unit
             # must give the same m2 values (the accumulation may not rescale the grid it was handed)
